@@ -313,6 +313,26 @@ def c07(ctx):
     ctx.stream("native-special-pairs", gen.nat_special_pairs(), spec_mode="native", exhaustive=True, nontrivial=lambda t: True, chunk_timeout=900)
     ctx.stream("native-ops", gen.nat_lines(rng, tiers(ctx, 8000, 150000)), spec_mode="native", nontrivial=lambda t: True, chunk_timeout=900)
     ctx.stream("native-f64-to-f32", ["nat64 tof32 %d 0" % p for p in gen.f64_patterns(rng, n)], spec_mode="native", nontrivial=lambda t: True)
+    # hardware side, swept inside the harness (no model involved): f32 patterns through load/store, f64->f32, trunc, round,
+    # the four operations and the comparisons with rotating fixed partners; every pattern in the thorough tier
+    thorough = ctx.tier == "thorough"
+    stride = 1 if thorough else 251
+    nchunk = 256
+    step = (2 ** 32 + nchunk - 1) // nchunk
+    sw = ["f32sweep %d %d %d" % (lo + (lo * 7) % stride, min(2 ** 32, lo + step), stride) for lo in range(0, 2 ** 32, step)]
+    ans = run.run_lines(run.harness_bin(), sw, "sweep-C07", chunk_timeout=3600 if thorough else 300, per_line_timeout=600 if thorough else 60, chunk_lines=16)
+    st = ctx.streams.setdefault("f32-sweep", {"lines": 0, "disagree": 0, "oracle_fail": 0, "profile": "release"})
+    swept = 0
+    for ln, a in zip(sw, ans):
+        if a.startswith("ok "):
+            swept += int(a.split()[1])
+        else:
+            ctx.fail("oracle", "f32-sweep", ln, a, "native f32 result", "the crate's FP32 result differs from the host's native operation")
+    st["lines"] += swept
+    ctx.evals += swept
+    if stride == 1:
+        ctx.exhaustive.append("f32-sweep")
+    ctx.notes.append("f32 sweep: %d patterns (stride %d) x load/store, f64->f32, trunc, round, + - * / and comparisons against native" % (swept, stride))
     ctx.assumptions.append("that the host CPU implements IEEE-754 binary32/binary64 is validated by this run (native results are compared), not proved")
     return done(ctx)
 
